@@ -35,6 +35,7 @@ impl MonitorSet {
         }
         match self.cl.get_mut(&idx) {
             None => {
+                self.cov("C01 indexes in the ghost committed log");
                 // ghost corruption for the self-test of the leader-completeness monitor
                 let gterm = if self.inj("leader_completeness") && idx == 2 { term + 1 } else { term };
                 self.cl.insert(idx, Cle { term: gterm, body, by: id, at_term });
@@ -68,6 +69,7 @@ impl MonitorSet {
 
         // ---- C02 election safety
         if self.f.election_safety && leader {
+            self.cov("C02 leader states checked");
             match self.leader_of.get(&post.term) {
                 None => {
                     self.leader_of.insert(post.term, id);
@@ -97,6 +99,7 @@ impl MonitorSet {
         // ---- C03 leader completeness
         if self.f.leader_completeness && leader {
             let mut bad: Option<String> = None;
+            self.cov("C03 leader logs checked against the committed log");
             for (idx, c) in self.cl.iter() {
                 if c.at_term >= post.term {
                     continue;
@@ -147,6 +150,7 @@ impl MonitorSet {
         // ---- C05 pairwise log matching
         if self.f.log_matching {
             let mut bad: Option<String> = None;
+            let mut pairs = 0u64;
             for (j, sj) in self.snaps.iter().enumerate() {
                 if j == i {
                     continue;
@@ -157,6 +161,7 @@ impl MonitorSet {
                 };
                 let lo = post.first.max(b.first).max(1);
                 let hi = post.last_index.min(b.last_index);
+                pairs += 1;
                 if lo > hi {
                     continue;
                 }
@@ -190,6 +195,7 @@ impl MonitorSet {
             if let Some(b) = bad {
                 self.fail("log-mismatch", b);
             }
+            *self.cover.entry("C05 log pairs compared").or_insert(0) += pairs;
         }
 
         // ---- C09 promotable flag == voter of own configuration
@@ -250,6 +256,7 @@ impl MonitorSet {
         let store = &sim.nodes[i].store;
         let hs = store.initial_state().unwrap().hard_state;
         let mut dterm = hs.term;
+        self.cov("C06 released promise messages checked");
         if self.inj("persist_before_send") && t == MT::MsgHeartbeat {
             dterm = 0; // observation corruption: the durable image looks empty
         }
